@@ -64,3 +64,87 @@ CHECKS["C13"] = {
         J("response", VSASL, "TestC13Response", {"shards": 2, "checks": 4000}, {"shards": 8, "checks": 60000}),
     ],
 }
+
+CHECKS["C01"] = {
+    "level": "exploration",
+    "engine": "E1 store-lib",
+    "level_text": "Model-based stateful property testing: generated operation histories (add/update/set-admin/remove incl. failing ones, default switches, "
+                  "re-opens) on store.Dir over generated multi-set configurations, compared after every step with a sequential reference model; "
+                  "password probes with derived near-misses whose expected verdict comes from the PBKDF2 key-equivalence relation. Histories, "
+                  "passwords and configurations are unbounded, so exploration is the achievable level.",
+    "level_note": "Trusted: the sequential model (harness/vlib/model.go) and KeyNorm (PBKDF2-HMAC key processing) written from SCHEMA.md; x/crypto. "
+                  "Bounded by budget: histories <= ~100 steps, passwords <= 8 KiB, scrypt cost <= 6, argon2 memory <= 64 KiB.",
+    "technique": "stateful model-based property testing (rapid state machine) with a sequential reference model",
+    "oracle": "sequential model after every step (exists/list/list-full), authenticate verdict/admin/last-changed/upgradeable = model; "
+              "near-miss expectation = byte equality (argon2id) or PBKDF2 key-normal-form equality (scrypt)",
+    "rule": "a case = one generated configuration + one operation history. Non-trivial = the history contains a successful update or a remove followed by "
+            "a successful re-add, and afterwards a probe with a stale password and at least one near-miss probe; distinct = distinct "
+            "(sequence of op kinds with outcome, set of near-miss kinds) fingerprint",
+    "assumptions": ["timestamps are compared at one-second granularity inside the [before, after] window of the write"],
+    "required_classes": {"all": ["history:nontrivial(update-or-readd + stale probe + near-miss probe)", "config:loaded-from-yaml",
+                                 "nearmiss-expected-equal(scrypt key equivalence)"]},
+    "jobs": [
+        J("history", VSTORE, "TestC01History", {"shards": 8, "checks": 400}, {"shards": 16, "checks": 5000}),
+    ],
+}
+
+CHECKS["C02"] = {
+    "level": "exploration",
+    "engine": "E1 store-lib",
+    "level_text": "Generated hash-file contents (systematic single-field mutants of records written by an independent schema implementation, "
+                  "re-encodings, numeric edge cases, noise) on generated configurations; the verdict of store.Dir.Authenticate is checked against "
+                  "an independent parser+recomputation in both directions, and the schema's unsupported-hash table is checked for clearly invalid files.",
+    "level_note": "Trusted: harness/vlib/refimpl.go (independent split, x/crypto recomputation, full-length compare); the stdlib base64url text layer is shared on purpose "
+                  "(the property excludes it). A hang would surface as a test timeout (inconclusive), not as a verdict.",
+    "technique": "property-based testing (rapid) with mutation-based generators and an independent reference implementation as oracle; native fuzzing in thorough",
+    "oracle": "only-if: Authenticate ok => refimpl.Verify(first line, password); if: canonical refimpl record authenticates, is listed with its timestamp/pid; "
+              "clearly invalid => hidden from list, unsupported in list-full, add refused, update refused and byte/inode/mtime-identical, remove deletes",
+    "rule": "a case = configuration x valid reference record x one mutation x 6 password probes. Non-trivial = a mutant (not the unmodified record, not whole-file noise); "
+            "distinct = distinct (mutation kind, field/variant, algorithm, class, size bucket)",
+    "assumptions": ["AMBIGUOUS spellings (whitespace, sign, padding, alphabet, control bytes) are only held to the only-if oracle and list/list-full consistency"],
+    "required_classes": {"all": ["class:VALID", "class:CLEARLY-INVALID", "class:AMBIGUOUS-OR-NEAR-VALID", "kind:bitflip", "kind:bytes-truncate"]},
+    "jobs": [
+        J("hashfile", VSTORE, "TestC02HashFile", {"shards": 8, "checks": 500}, {"shards": 16, "checks": 20000}),
+    ],
+}
+
+CHECKS["C14"] = {
+    "level": "exploration",
+    "engine": "E1 store-lib",
+    "level_text": "Generated YAML parameter sets (loaded through the real loader) x generated passwords x sequences of add/update writes; every written file is "
+                  "parsed with a strict grammar and its digest recomputed independently with x/crypto from the generated numbers; salts are compared across the whole "
+                  "run and across processes; secrets are searched in every file under the base directory.",
+    "level_note": "Trusted: x/crypto scrypt/argon2 and crypto/hmac called directly by the harness; parameter ranges bounded by budget (scrypt cost <= 8, argon2 memory <= 256 KiB).",
+    "technique": "property-based testing (rapid) with independent recomputation oracle (differential against x/crypto primitives)",
+    "oracle": "line grammar; alg/pid = configured default; timestamp in [before, after]; canonical base64url salt of schema size, pairwise distinct; "
+              "digest = recomputation from generated YAML numbers (defaults r=8,p=1 when absent or <=0); aux preserved; password/HMAC key (raw, hex, base64 variants) absent from the directory",
+    "rule": "a case = generated configuration + 1..12 writes. Non-trivial = a write under a set with overridden r/p or threads>1, or with a password >64 bytes or non-UTF-8; "
+            "distinct = distinct (alg, override class, parameter values, password class, op)",
+    "assumptions": [],
+    "required_classes": {"all": ["write:hmac_sha256_scrypt:override-rp", "write:hmac_sha256_scrypt:default-rp", "write:argon2id:threads>1", "salts-compared-across-processes"]},
+    "jobs": [
+        J("records", VSTORE, "TestC14Records|TestC14SaltSpread", {"shards": 8, "checks": 150}, {"shards": 16, "checks": 4000}),
+        J("saltxproc", VSTORE, "TestC14SaltAcrossProcesses", {"shards": 1, "n": 4}, {"shards": 1, "n": 16}, rapid=False),
+    ],
+}
+
+CHECKS["C16"] = {
+    "level": "exploration",
+    "engine": "E1 store-lib",
+    "level_text": "Generated directory descriptions (per valid name: .user/.admin/both/other extension/sub-directory; supported, unknown-pid, other-algorithm, garbage, empty contents; "
+                  ".tmp absent/dir/leftovers/file; base ok/missing/file; permuted creation order) with a reference validity predicate computed from the description; "
+                  "generated operation histories from an initialised store with invariants after every step; Init on every generated directory.",
+    "level_note": "Trusted: the reference predicate (materialize() in harness/vstore/c16_test.go), the sequential model. Running as root, 'unreadable' is only generated as "
+                  "missing / not-a-directory (EACCES is injected in C15's fault enumeration). The binary-level clause (exit status 3, --do-check=false) is checked by the black-box job.",
+    "technique": "property-based testing (rapid): generated directory trees vs a reference predicate; model-based state machine for histories",
+    "oracle": "Check()==nil <=> predicate(description); Check is read-only; after each op: Check()==nil iff the model has a supported admin, one file per user, .tmp empty; "
+              "Init succeeds => directory was empty apart from .tmp, and afterwards valid",
+    "rule": "non-trivial = a directory invalid for exactly one reason, or valid with >= 2 entries, or a history of >= 4 operations; distinct = distinct "
+            "(reason set, .tmp class, creation order, entry shapes) resp. distinct operation sequence",
+    "assumptions": ["directory contents are built from schema-valid user names (the property's quantifier); invalid names are C03"],
+    "required_classes": {"all": ["reason:both-extensions", "reason:foreign-entry", "reason:no-supported-admin", "reason:base-missing", "check:valid=true", "init:succeeded", "init:refused"]},
+    "jobs": [
+        J("checkexact", VSTORE, "TestC16CheckExact", {"shards": 6, "checks": 400}, {"shards": 16, "checks": 8000}),
+        J("histories", VSTORE, "TestC16Histories", {"shards": 6, "checks": 100}, {"shards": 16, "checks": 2000}),
+    ],
+}
